@@ -704,12 +704,12 @@ Section IntCom.
 
   (* Equivocate's witness opens the same commitment to the new message *)
   Theorem int_equivocate_opens m r m' r' :
-    int_equivocate_ok k ord lambda m r m' r' = true -> int_open k (int_commit k m r) m' r' = true.
+    int_equivocate_ok ord lambda m r m' r' = true -> int_open k (int_commit k m r) m' r' = true.
   Proof.
     unfold int_equivocate_ok. intros Hok. apply int_open_spec. rewrite int_commit_normal.
     destruct (Z.eqb_spec m m') as [->|Hne].
     - apply Z.eqb_eq in Hok. subst r'. reflexivity.
-    - apply andb_true_iff in Hok. destruct Hok as [Hc _]. apply Z.eqb_eq in Hc.
+    - rename Hok into Hc. apply Z.eqb_eq in Hc.
       apply int_openings_coincide_if.
       apply Z.mod_divide in Hc; [|lia]. destruct Hc as [j Hj].
       replace (lambda * m' + r') with (lambda * m + r + j * ord) by lia.
